@@ -239,6 +239,7 @@ pub struct Events
 
 struct St
 {
+    cvs: Vec<Arc<Condvar>>,
     current: usize,
     status: Vec<Status>,
     live_os_threads: usize,
@@ -256,7 +257,69 @@ struct St
 pub struct Inner
 {
     m: Mutex<St>,
-    cv: Condvar,
+}
+
+impl St
+{
+    fn wake(&self, tid: usize)
+    {
+        if let Some(cv) = self.cvs.get(tid)
+        {
+            cv.notify_all();
+        }
+    }
+    fn wake_all(&self)
+    {
+        for cv in self.cvs.iter()
+        {
+            cv.notify_all();
+        }
+    }
+}
+
+type Job = Box<dyn FnOnce() + Send + 'static>;
+
+struct PoolWorker
+{
+    tx: std::sync::mpsc::Sender<Job>,
+}
+
+static POOL: Mutex<Vec<PoolWorker>> = Mutex::new(Vec::new());
+
+/// Run `job` on a pooled OS thread (created on demand, reused afterwards): creating and
+/// tearing down a thread per rule per run costs an mmap/munmap each, which serialises all
+/// proptest workers of the process on the address-space lock.
+fn pool_run(job: Job) -> bool
+{
+    let w = POOL.lock().unwrap_or_else(|e| e.into_inner()).pop();
+    if let Some(w) = w
+    {
+        match w.tx.send(job)
+        {
+            Ok(()) => return true,
+            Err(std::sync::mpsc::SendError(job)) => return pool_spawn(job),
+        }
+    }
+    pool_spawn(job)
+}
+
+fn pool_spawn(job: Job) -> bool
+{
+    let (tx, rx) = std::sync::mpsc::channel::<Job>();
+    let tx2 = tx.clone();
+    let r = std::thread::Builder::new().stack_size(1 << 20).spawn(move ||
+    {
+        while let Ok(job) = rx.recv()
+        {
+            job();
+            POOL.lock().unwrap_or_else(|e| e.into_inner()).push(PoolWorker { tx: tx2.clone() });
+        }
+    });
+    match r
+    {
+        Ok(_) => tx.send(job).is_ok(),
+        Err(_) => false,
+    }
 }
 
 struct AbortToken;
@@ -348,7 +411,7 @@ fn reschedule(inner: &Arc<Inner>, mut st: MutexGuard<'_, St>, me: usize, me_runn
         let d = format!("deadlock at step {}: {}", st.step, st.describe());
         st.deadlock = Some(d.clone());
         st.aborting = Some(d);
-        inner.cv.notify_all();
+        st.wake_all();
         drop(st);
         unwind_abort();
     }
@@ -367,10 +430,11 @@ fn reschedule(inner: &Arc<Inner>, mut st: MutexGuard<'_, St>, me: usize, me_runn
             st.ev.preemptions += 1;
         }
         st.current = next;
-        inner.cv.notify_all();
+        st.wake(next);
+        let mycv = st.cvs[me].clone();
         loop
         {
-            st = inner.cv.wait(st).unwrap_or_else(|e| e.into_inner());
+            st = mycv.wait(st).unwrap_or_else(|e| e.into_inner());
             if st.aborting.is_some()
             {
                 drop(st);
@@ -404,7 +468,7 @@ pub fn abort_all(reason: &str) -> !
         {
             st.aborting = Some(reason.to_string());
         }
-        inner.cv.notify_all();
+        st.wake_all();
         drop(st);
         unwind_abort();
     }
@@ -477,6 +541,7 @@ pub fn run_controlled<R>(policy: Box<dyn Policy>, record_trace: bool, f: impl Fn
     {
         m: Mutex::new(St
         {
+            cvs: vec![Arc::new(Condvar::new())],
             current: 0,
             status: vec![Status::Runnable],
             live_os_threads: 0,
@@ -490,7 +555,6 @@ pub fn run_controlled<R>(policy: Box<dyn Policy>, record_trace: bool, f: impl Fn
             next_chan: 0,
             ev: Events::default(),
         }),
-        cv: Condvar::new(),
     });
     CTX.with(|c| *c.borrow_mut() = Some((inner.clone(), 0)));
     let r = std::panic::catch_unwind(std::panic::AssertUnwindSafe(f));
@@ -510,23 +574,24 @@ pub fn run_controlled<R>(policy: Box<dyn Policy>, record_trace: bool, f: impl Fn
                 let next = st.policy.choose(&runnable, None, step);
                 let next = if runnable.contains(&next) { next } else { runnable[0] };
                 st.current = next;
-                inner.cv.notify_all();
+                st.wake(next);
             }
             else if leftover > 0
             {
                 let d = format!("leftover threads blocked after caller returned: {}", st.describe());
                 st.deadlock = Some(d.clone());
                 st.aborting = Some(d);
-                inner.cv.notify_all();
+                st.wake_all();
             }
         }
         else
         {
-            inner.cv.notify_all();
+            st.wake_all();
         }
+        let mycv = st.cvs[0].clone();
         while st.live_os_threads > 0
         {
-            st = inner.cv.wait(st).unwrap_or_else(|e| e.into_inner());
+            st = mycv.wait(st).unwrap_or_else(|e| e.into_inner());
         }
     }
     CTX.with(|c| *c.borrow_mut() = None);
@@ -584,15 +649,16 @@ fn thread_finished(inner: &Arc<Inner>, me: usize)
             }
             st.ev.switches += 1;
             st.current = next;
+            st.wake(next);
         }
         else if st.status.iter().any(|s| *s != Status::Finished)
         {
             let d = format!("deadlock at step {} (after t{} finished): {}", st.step, me, st.describe());
             st.deadlock = Some(d.clone());
             st.aborting = Some(d);
+            st.wake_all();
         }
     }
-    inner.cv.notify_all();
 }
 
 // ---------------------------------------------------------------------------------------
@@ -670,18 +736,19 @@ pub mod thread
                     }
                     tid = st.status.len();
                     st.status.push(Status::Runnable);
+                    st.cvs.push(Arc::new(Condvar::new()));
                     st.live_os_threads += 1;
                 }
                 let inner2 = inner.clone();
                 let slot2 = slot.clone();
-                let builder = std::thread::Builder::new().stack_size(1 << 20);
-                let os = builder.spawn(move ||
+                let started = pool_run(Box::new(move ||
                 {
                     CTX.with(|c| *c.borrow_mut() = Some((inner2.clone(), tid)));
                     // wait for the baton
                     let mut aborted = false;
                     {
                         let mut st = lock(&inner2);
+                        let mycv = st.cvs[tid].clone();
                         loop
                         {
                             if st.aborting.is_some()
@@ -693,7 +760,7 @@ pub mod thread
                             {
                                 break;
                             }
-                            st = inner2.cv.wait(st).unwrap_or_else(|e| e.into_inner());
+                            st = mycv.wait(st).unwrap_or_else(|e| e.into_inner());
                         }
                     }
                     if !aborted
@@ -709,15 +776,18 @@ pub mod thread
                     CTX.with(|c| *c.borrow_mut() = None);
                     let mut st = lock(&inner2);
                     st.live_os_threads -= 1;
-                    inner2.cv.notify_all();
-                });
-                if os.is_err()
+                    if st.live_os_threads == 0
+                    {
+                        st.wake(0);
+                    }
+                }));
+                if !started
                 {
                     let mut st = lock(&inner);
                     st.live_os_threads -= 1;
                     st.status[tid] = Status::Finished;
                     st.aborting = Some("OS thread spawn failed".to_string());
-                    inner.cv.notify_all();
+                    st.wake_all();
                     drop(st);
                     unwind_abort();
                 }
